@@ -14,7 +14,10 @@ CONF = dict(
           'empty/SCION/one-hop path, 1..3 exchanges per client against a scripted next hop delivering 0..3 responses each: built by the harness (12 authenticator '
           'variants, wrong ISD-AS/host, IPv4-mapped source, SCMP, NTP origin/metadata/timestamp defects) or the real listener\'s answer to the client\'s own request '
           '(possibly damaged on the way there), each possibly with a one-bit mutation. (probe) datagrams whose MAC cannot be computed (unregistered path type) in '
-          'throw-away processes. Non-trivial: every history/exchange generated this way (each contains at least one datagram that reaches the authentication, '
+          'throw-away processes. (srv.keyed) a second child without mock keys: the listener fetches its DRKeys over gRPC from a fake DRKey daemon run by the harness '
+          '(host-AS key = hash of protocol, server ISD-AS and host, client ISD-AS, epoch; host-host key by the project\'s DeriveHostHostKey), histories of 3..8 requests from one socket '
+          '(one listener goroutine, one Fetcher cache) addressed to 2-3 SCION host addresses of the server by 2-3 client hosts of one or two ISD-ASes: MAC under the key of the addressed host, '
+          'of another server host, of another client host/AS, under the mock key, damaged; the recomputed MAC handed to the model is the one under the key of the ADDRESSED host. Non-trivial: every history/exchange generated this way (each contains at least one datagram that reaches the authentication, '
           'addressing or forwarding decision); distinct = distinct (kind, input)'),
     assumptions=['ideal MAC for the mutation theorems (no two MAC inputs share a tag under one key; consistency shown by an injective instance); every other theorem holds for an arbitrary MAC function',
                  'DRKey fetch outcome (key or failure) is a universally quantified input; with USE_MOCK_KEYS the harness and both ends use the all-zero key',
